@@ -873,17 +873,30 @@ class ProgramRunner:
         return out
 
     def reader(self):
-        if self.fr is None:
-            self.fr = self.client.open("r", "rb")
-            self.files.append(self.fr)
         return self.fr
 
     def writer(self, pipelined=True):
-        if self.fw is None:
-            self.fw = self.client.open("w", "wb")
-            self.fw.set_pipelined(pipelined)
-            self.files.append(self.fw)
         return self.fw
+
+    def _ensure(self, which, pipelined=True):
+        """open the read / write file under the watchdog; None if fine, else the outcome of the failed open"""
+        if which == "r" and self.fr is None:
+            res = self.call(("open",), lambda: self.client.open("r", "rb"))
+            if res[0] != "ok":
+                return res
+            self.fr = res[1]
+            self.files.append(self.fr)
+        if which == "w" and self.fw is None:
+            def op():
+                f = self.client.open("w", "wb")
+                f.set_pipelined(pipelined)
+                return f
+            res = self.call(("open",), op)
+            if res[0] != "ok":
+                return res
+            self.fw = res[1]
+            self.files.append(self.fw)
+        return None
 
     def run(self, prog):
         """prog: list of op dicts (op + arguments); returns trace records (the first describes the session)"""
@@ -894,6 +907,12 @@ class ProgramRunner:
             rec = dict(op)
             k = op["op"]
             outcome = None
+            need = "r" if k in ("seek", "prefetch", "read", "readv", "closeR") else ("w" if k in ("write", "closeW") else None)
+            bad = self._ensure(need, op.get("pipelined", True)) if need else None
+            if bad is not None:
+                recs.append({"op": "open", "out": bad[0], "short": False,
+                             "exc": type(bad[1]).__name__ if bad[0] == "exc" else bad[1]})
+                break
             if k == "seek":
                 outcome = self.call(("seek",), lambda: self.reader().seek(op["p"]))
             elif k == "prefetch":
